@@ -41,6 +41,11 @@ ActsDirs == Only({"chdir", "commit", "rollback"})
             \cup {a \in Only({"select", "insert1", "update", "delete", "selectagg", "disk", "replace", "insertsel", "callins"}) : a.t \in {"f1", "g1"} /\ a.k \in {0, 1} /\ a.u \in {"", "f1", "g1"}}
 \* a name that differs from an existing table's in letter case only
 ActsCase == {a \in Only({"selectcase", "select", "update", "insert1", "commit", "rollback", "disk"}) : a.t \in {"f1", ""} /\ a.k \in {0, 1}}
+\* a table that is read, changed by another process, and then changed by this transaction: the first data-changing access
+\* loads it again (the documented exception), so that the change is made to what is committed, not to what was read
+ActsUpgrade == {a \in Only({"select", "selectsub", "selectagg", "env", "update", "insert1", "delete", "replace", "updateswap", "addcol", "disk"}) : a.t = "f1" /\ a.k \in {0, 1}}
+               \cup {a \in Only({"insertsel", "updatejoin"}) : a.t = "f1" /\ a.u \in {"f1", TempT}}
+               \cup Only({"commit", "rollback"})
 \* reads of every form around commits of another process
 ActsReads == Only({"select", "selectsub", "selectfn", "selectinline", "selectagg", "selectpath", "insertpath", "env", "update", "insertsel", "updatejoin", "commit", "rollback"})
 \* a procedure that reads, executes nested statements and reads again while another process commits in between
@@ -49,6 +54,9 @@ ActsNested == Only({"select", "selectsub", "selectagg", "selectfn", "selectinlin
 \* the model-checking configurations (the depth-6 ones of the thorough tier too: the full action set does not end within 40 minutes) leave out the statements that name the sub-directory's file from the top
 \* directory (`sub/f1.csv`): the file is reached through the name f1 after a change of the repository
 NextQ == \E a \in {b \in Actions : b.t # SubFile /\ b.u # SubFile} : Do(a)
+ShapeAny(a, i) == TRUE
+\* the walks of the upgrade family begin with a read of f1 and a commit of another process to it
+ShapeUpgrade(a, i) == CASE i = 1 -> a.act \in {"select", "selectsub", "selectagg"} [] i = 2 -> a.act = "env" [] OTHER -> a.act # "env"
 Depth6 == TLCGet("level") <= 6
 Depth5 == TLCGet("level") <= 5
 =============================================================================
